@@ -186,6 +186,8 @@ def _sub(ty, v):
         return _try(lambda x: cls(float(x)), v) if type(v) in (int, float) else rej()
     if base == 'str':
         return _try(cls, v) if type(v) is str else rej()
+    if base == 'bytes':
+        return _try(cls, v) if type(v) in (bytes, bytearray) else rej()
     return uns('sub base')
 
 
